@@ -70,3 +70,35 @@ func cmdCFG(args []string) int {
 	}
 	return 0
 }
+
+func cmdAsserts(args []string) int {
+	p, err := Load("/repo", BuildConfig{}, nil)
+	if err != nil {
+		fmt.Fprintln(os.Stderr, err)
+		return 2
+	}
+	for _, fs := range p.Sources() {
+		ast.Inspect(fs.Body(), func(n ast.Node) bool {
+			if _, ok := n.(*ast.FuncLit); ok && n != ast.Node(fs.Lit) {
+				return false
+			}
+			ta, ok := n.(*ast.TypeAssertExpr)
+			if !ok || ta.Type == nil {
+				return true
+			}
+			par := p.Parent(fs.File, ta)
+			commaOk := false
+			switch x := par.(type) {
+			case *ast.AssignStmt:
+				commaOk = len(x.Lhs) == 2 && len(x.Rhs) == 1
+			case *ast.ValueSpec:
+				commaOk = len(x.Names) == 2 && len(x.Values) == 1
+			}
+			if !commaOk {
+				fmt.Printf("%s %s: %s  (operand type %s)\n", p.PosStr(ta.Pos()), fs.Name, types.ExprString(ta), fs.Pkg.TypesInfo.TypeOf(ta.X))
+			}
+			return true
+		})
+	}
+	return 0
+}
